@@ -139,6 +139,20 @@ PROPS = {
         phases=[P(kind="fuzz", bin="c12_hdredit", runs_quick=80000, runs_thorough=10000000, workers_quick=8, workers_thorough=16, max_len=4096, rss=6000, timeout=60)],
         floor_quick=5000, floor_thorough=200000,
     ),
+    "C13": P(
+        title="configured resource limits are never exceeded",
+        level="exploration",
+        technique="stateful model-based testing over generated configurations: libFuzzer-generated limit values and histories (connect/auth/Hello/close by two users, names, match rules, outstanding calls, sized messages) on an in-process bus vs. model counters, with probes that a refused request changed nothing",
+        level_text=("Exploration: every history draws its own configuration (max_completed_connections 2-5, max_connections_per_user 1-4, max_incomplete_connections 1-3, max_names_per_connection 2-4, "
+                    "max_match_rules_per_connection 1-3, max_replies_per_connection 1-3, max_message_size 512-4096) and interleaves connects (handshake written immediately), Hello, closes by one or "
+                    "two uids, RequestName/ReleaseName, AddMatch/RemoveMatch with per-rule probe signals, calls and replies, and messages sized limit-8..limit+8. The request that would exceed a limit "
+                    "must be refused with LimitsExceeded (or the socket left unserved) and change nothing (registry query / probe signal), requests below the limit behave normally, freed capacity is "
+                    "usable again, and an oversize message disconnects only its sender."),
+        level_note="Single operations (no batches); auth_timeout is not exercised here (C10); the second uid is obtained with a short-lived setresuid child (root in the sandbox); re-requesting an already held name exactly at the name limit is [U] and not generated. The unique name counts as a name [D test/dbus-daemon.c].",
+        rule=("case = (configuration, history) decoded from fuzzer input. Non-trivial = the history hits a limit, frees capacity and uses it again; distinct = FNV-1a of the log (which includes the limit values) with unique names renamed."),
+        phases=[P(kind="fuzz", bin="c13_limits", runs_quick=14000, runs_thorough=3000000, workers_quick=12, workers_thorough=16, max_len=1024, rss=4000, timeout=120, detect_leaks=0)],
+        floor_quick=200, floor_thorough=30000,
+    ),
     "C16": P(
         title="grammar predicates",
         level="exploration",
